@@ -9,7 +9,33 @@
  * PROT_NONE page and is mapped PROT_READ.
  */
 #define _GNU_SOURCE
+#include <stdlib.h>
+#include <string.h>
+#include <stddef.h>
+#ifdef VERIF_FAILINJECT
+/* allocation-failure injection: every malloc/calloc/realloc request made by the library is
+   numbered; request k fails when g_fail_one == k, or when k >= g_fail_from */
+static long g_alloc_no = 0, g_fail_one = -1, g_fail_from = -1;
+static int g_fail_armed = 0;
+static int h_should_fail(void) {
+    if (!g_fail_armed) return 0;
+    long k = g_alloc_no++;
+    return (k == g_fail_one) || (g_fail_from >= 0 && k >= g_fail_from);
+}
+int edn_verif_fail_alloc(void) { return h_should_fail(); }   /* arena-level requests (hook) */
+static void* h_malloc(size_t n) { return h_should_fail() ? NULL : malloc(n); }
+static void* h_calloc(size_t a, size_t b) { return h_should_fail() ? NULL : calloc(a, b); }
+static void* h_realloc(void* p, size_t n) { return h_should_fail() ? NULL : realloc(p, n); }
+#define malloc(n) h_malloc(n)
+#define calloc(a, b) h_calloc(a, b)
+#define realloc(p, n) h_realloc(p, n)
+#endif
 #include VERIF_UNITY
+#ifdef VERIF_FAILINJECT
+#undef malloc
+#undef calloc
+#undef realloc
+#endif
 #include <stdio.h>
 #include <stdlib.h>
 #include <string.h>
@@ -76,7 +102,10 @@ static int split(char* line, char** tok) {
 }
 
 int main(int argc, char** argv) {
-    for (int i = 1; i < argc; i++) if (!strcmp(argv[i], "--guard")) g_guard = 1;
+    for (int i = 1; i < argc; i++) {
+        if (!strcmp(argv[i], "--guard")) g_guard = 1;
+        if (!strcmp(argv[i], "--stack1m")) g_small_stack = 1;
+    }
     size_t cap = 1 << 22;
     char* line = (char*) malloc(cap);
     while (fgets(line, (int) cap, stdin)) {
@@ -155,7 +184,8 @@ int main(int argc, char** argv) {
             if (bad) printf("BAD %lu first=%08lu\n", bad, first); else printf("OK %lu\n", hi - lo);
         } else if (!strcmp(cmd, "double") && nt == 2) {
             buf_t b = buf_from_hex(tok[1]);
-            double d = parse_double_from_buffer(b.p, b.p + b.n);
+            double d = 0;
+            if (!parse_double_from_buffer(b.p, b.p + b.n, &d)) { printf("OOM\n"); buf_free(&b); fflush(stdout); continue; }
             uint64_t u; memcpy(&u, &d, 8);
             if (d != d) u = 0x7FF8000000000000ULL;
             printf("%016" PRIx64 "\n", u);
